@@ -4,6 +4,8 @@ import FqModel.CtxStack
 
   `seq|interp [@note]* <op>;<op>;…` TAB `<obs>;<obs>;…`
       op  = `p-` | `p<i>` | `f<i>` | `i` | `s`      (Push / cancel closure of the i-th push / interrupt / Stop)
+            `b<i>` | `d`   (blocked Read on a ctxreadseeker bound to context i / the underlying read returns;
+                            such lines carry a third observation field B | c | d | -)
       obs = `<e>/<w>[!]` after the op: e[j] = 1 iff Err() ≠ nil of the j-th pushed context,
             w[j] = 1 iff a Write through the CtxWriter bound to context j reached the sink,
             `!` = the op panicked.
@@ -23,12 +25,31 @@ def parseOp (w : String) : Option Op :=
     | 'f' :: ds => (String.ofList ds).toNat?.map .finish
     | _ => none
 
+def parseROp (w : String) : Option ROp :=
+  if w == "d" then some .data
+  else match w.toList with
+    | 'b' :: ds => (String.ofList ds).toNat?.map (fun n => .read .ctxAware n)
+    | _ => (parseOp w).map .ev
+
 def showOp : Op → String
   | .push none => "p-"
   | .push (some n) => s!"p{n}"
   | .finish i => s!"f{i}"
   | .interrupt => "i"
   | .stop => "s"
+
+def showROp : ROp → String
+  | .ev o => showOp o
+  | .read _ c => s!"b{c}"
+  | .data => "d"
+
+def ropsValid : Nat → List ROp → Bool
+  | _, [] => true
+  | n, .ev (.push none) :: r => ropsValid (n + 1) r
+  | n, .ev (.push (some p)) :: r => p < n && ropsValid (n + 1) r
+  | n, .ev (.finish i) :: r => i < n && ropsValid n r
+  | n, .read _ c :: r => c < n && ropsValid n r
+  | n, _ :: r => ropsValid n r
 
 /-- parents and closure indices must refer to earlier pushes -/
 def opsValid : Nat → List Op → Bool
@@ -47,6 +68,8 @@ structure ImplObs where
   errs : List Bool
   writes : List Bool
   panicked : Bool
+  /-- B | c | d | - -/
+  reader : String
 
 def parseObs (s : String) : Option ImplObs :=
   let (s, bang) := if s.endsWith "!" then ((s.dropEnd 1).toString, true) else (s, false)
@@ -54,7 +77,11 @@ def parseObs (s : String) : Option ImplObs :=
   | [e, w] => do
     let e ← parseBits e
     let w ← parseBits w
-    some ⟨e, w, bang⟩
+    some ⟨e, w, bang, "-"⟩
+  | [e, w, r] => do
+    let e ← parseBits e
+    let w ← parseBits w
+    if r == "B" || r == "c" || r == "d" || r == "-" then some ⟨e, w, bang, r⟩ else none
   | _ => none
 
 def showObs (o : Obs) : String :=
@@ -62,46 +89,84 @@ def showObs (o : Obs) : String :=
 
 def firstDiff (a b : List Bool) : Nat := ((a.zip b).takeWhile (fun (x, y) => x == y)).length
 
-/-- verdict for one sequence: walk the three traces side by side -/
-def seqVerdict (ops : List Op) (impl : List ImplObs) : String := Id.run do
-  let mut m := St.init
+/-- the reader field the model predicts for the step `s → s'` -/
+def readerField (s s' : RSt) : String :=
+  if s'.results.length > s.results.length then
+    (match s'.results.getLast? with | some .cancelled => "c" | _ => "d")
+  else if s'.blocked.isSome then "B" else "-"
+
+/-- verdict for one sequence: walk the traces side by side -/
+def seqVerdict (ops : List ROp) (impl : List ImplObs) : String := Id.run do
+  let mut m := RSt.init
   let mut old := St.init
   let mut sp := Spec.init
   let mut k := 0
   let mut fail : Option String := none
   let mut div : Option String := none
+  let mut bad : Option String := none
   let mut oldAgrees := true
-  for (op, io) in ops.zip impl do
+  let mut errFail := false
+  for (rop, io) in ops.zip impl do
     let spBefore := sp
     let mBefore := m
-    m := step .fixed m op
-    old := step .oldPop old op
-    sp := sp.step op
+    m := rstep m rop
+    -- the specification sees the stack operations (the evaluator performs none while it is blocked)
+    match rop with
+    | .ev o =>
+      if mBefore.blocked.isSome && o != .interrupt then
+        if bad.isNone then bad := some s!"op {k} ({showROp rop}): evaluator operation while a call is blocked"
+      sp := sp.step o
+      old := step .oldPop old o
+    | _ => pure ()
     let want := sp.ctxs.errs
-    let newMisuse := op == .stop && spBefore.stopped
+    let isStop := match rop with | .ev .stop => true | _ => false
+    let newMisuse := isStop && spBefore.stopped
     if old.obs.errs != io.errs then oldAgrees := false
     if fail.isNone then
       if io.errs.length != want.length then
-        fail := some s!"op {k} ({showOp op}): {io.errs.length} contexts observed, {want.length} pushed"
+        fail := some s!"op {k} ({showROp rop}): {io.errs.length} contexts observed, {want.length} pushed"
       else if io.errs != want then
         let j := firstDiff io.errs want
         let what := if io.errs.getD j false then "is cancelled but must be live" else "is live but must be cancelled"
-        fail := some s!"op {k} ({showOp op}): context {j} {what}: impl={showBits io.errs} spec={showBits want}"
+        fail := some s!"op {k} ({showROp rop}): context {j} {what}: impl={showBits io.errs} spec={showBits want}"
+        errFail := true
       else if io.writes != io.errs.map not then
         let j := firstDiff io.writes (io.errs.map not)
         let what := if io.writes.getD j false then "a write after cancellation reached the sink" else "a write on a live context was suppressed"
-        fail := some s!"op {k} ({showOp op}): CtxWriter of context {j}: {what}"
+        fail := some s!"op {k} ({showROp rop}): CtxWriter of context {j}: {what}"
       else if io.panicked != newMisuse then
-        fail := some (if io.panicked then s!"op {k} ({showOp op}): panic" else s!"op {k} ({showOp op}): second Stop did not panic (model: close of closed channel)")
+        fail := some (if io.panicked then s!"op {k} ({showROp rop}): panic" else s!"op {k} ({showROp rop}): second Stop did not panic (model: close of closed channel)")
+      else
+        -- the reader, judged on the implementation's own observation: a context-aware call may be
+        -- blocked only while its context is live, and comes back only with data or the cancellation
+        let bctx := match m.blocked, mBefore.blocked with
+          | some b, _ => some b.ctx
+          | none, some b => some b.ctx
+          | none, none => (match rop with | .read _ c => some c | _ => none)
+        match bctx with
+        | some c =>
+          if io.reader == "B" && want.getD c false then
+            fail := some s!"op {k} ({showROp rop}): the call on the reader bound to context {c} is still blocked although the context is cancelled"
+          else if io.reader == "c" && !want.getD c false then
+            fail := some s!"op {k} ({showROp rop}): the call came back with the cancellation error although context {c} is live"
+          else if io.reader == "d" && rop != .data then
+            fail := some s!"op {k} ({showROp rop}): the call came back with data that never arrived"
+        | none =>
+          if io.reader != "-" then
+            fail := some s!"op {k} ({showROp rop}): reader observation {io.reader} without a call"
     if div.isNone then
-      let mo := m.obs
-      if mo.errs != io.errs || (mo.rtPanic || (op == .stop && mBefore.stopped)) != io.panicked then
-        div := some s!"op{k}:{showObs mo}"
+      let mo := m.st.obs
+      if mo.errs != io.errs || (mo.rtPanic || (isStop && mBefore.st.stopped && mBefore.blocked.isNone)) != io.panicked
+          || readerField mBefore m != io.reader then
+        div := some s!"op{k}:{showObs mo}/{readerField mBefore m}"
     k := k + 1
   let d := match div with | some t => s!" ;DIVERGE model={t}" | none => ""
+  match bad with
+  | some b => return s!"BADOP {b}"
+  | none =>
   match fail with
   | some f =>
-    let hint := if oldAgrees && div.isSome then " [impl agrees with the model of the pop closure before commit c3499288]" else ""
+    let hint := if oldAgrees && errFail then " [impl agrees with the model of the pop closure before commit c3499288]" else ""
     return s!"PROPFAIL {f}{hint}{d}"
   | none =>
     match div with
@@ -111,10 +176,10 @@ def seqVerdict (ops : List Op) (impl : List ImplObs) : String := Id.run do
 def stripNotes (ws : List String) : List String := ws.filter (fun w => !w.startsWith "@")
 
 def seqLine (opsText obs : String) : String :=
-  match (opsText.splitOn ";").filter (· ≠ "") |>.mapM parseOp with
+  match (opsText.splitOn ";").filter (· ≠ "") |>.mapM parseROp with
   | none => "BADOP op"
   | some ops =>
-    if !opsValid 0 ops then "BADOP op refers to a push that has not happened"
+    if !ropsValid 0 ops then "BADOP op refers to a push that has not happened"
     else if obs.startsWith "unplanned:" then s!"PROPFAIL fq did not follow the harness plan: {obs.drop 10}"
     else if obs.startsWith "invalid:" then s!"BADOP {obs}"
     else match (obs.splitOn ";").mapM parseObs with
